@@ -206,6 +206,32 @@ def run(chk):
     t = stmt_text(src.func("eko.io.dictlike.DictLike._raw").node)
     chk.decide("for field in dataclasses.fields(self)" in t and "dictionary[field.name] = raw_field(getattr(self, field.name))" in t,
                "metadata-drops-only-the-path", "eko.io.dictlike.DictLike._raw", "_raw no longer serialises every dataclass field", instance="_raw")
+    # metadata edits are persisted: every setter of the EKO that changes the metadata writes it to disk AFTER the change
+    n_set = 0
+    for mname, m in ekoc.methods.items():
+        if "setter" not in mname:
+            continue
+        attr = mname.split("@")[0]
+        n_set += 1
+        pes = PE(src)
+        seen = []
+        pes.overrides["eko.io.metadata.Metadata.update"] = lambda p, a, k, seen=seen, attr=attr: seen.append(a[0].attrs.get(attr))
+        acc = Obj(src.cls("eko.io.access.AccessConfigs"))
+        acc.attrs.update(path="P", readonly=False, open=True)
+        mdo = Obj(md)
+        mdo.attrs.update({attr: dag.sym("old"), "_path": "DIR"})
+        eo = Obj(ekoc)
+        eo.attrs.update(metadata=mdo, access=acc)
+        new = dag.sym("new")
+        try:
+            pes.apply(pes.getattr(eo, mname) if False else _bound(pes, eo, m), [new], {})
+        except PERaise as e:
+            chk.fail("metadata-edits-are-persisted", m.qname, f"setter raises {e}", where=m.where, instance=attr)
+            continue
+        chk.decide(mdo.attrs.get(attr) is new and seen and seen[-1] is new, "metadata-edits-are-persisted", m.qname,
+                   f"after `eko.{attr} = value` the object holds {mdo.attrs.get(attr)} and the metadata file was written with {seen}: the write must "
+                   f"follow the change, otherwise the archive keeps the previous value", where=m.where, instance=attr, how="PE with recording Metadata.update")
+    chk.floor("metadata setters", n_set, 1)
     # ---- (6) archive -------------------------------------------------------------------------------------------------------------------------------
     fd = ekoc.methods["dump"]
     t = stmt_text(fd.node)
@@ -222,6 +248,12 @@ def run(chk):
     chk.note(yaml_sites=len(calls), files=["src/eko/io/inventory.py", "src/eko/io/items.py", "src/eko/io/struct.py", "src/eko/io/metadata.py",
                                            "src/eko/io/paths.py"])
     chk.explanation = "Pairing tables for YAML, names, array members, compression, point<->header map, metadata and archive."
+
+
+def _bound(pe, obj, m):
+    from ..pe import Bound, Closure
+
+    return Bound(obj, Closure(m, m.node, None, m.module, m.qname))
 
 
 def src_cls_ref(pe, qname):
